@@ -161,6 +161,9 @@ type mergeProcessor struct {
 	// The composites are walked again after missing encryption keys have been fetched, and the blocks
 	// that were readable in an earlier pass must not be merged a second time.
 	mergedBlocks map[cid.Cid]struct{}
+	// linkedDocComposites contains, per document composite linked from a collection block, the
+	// composites of that document that have to be merged with it.
+	linkedDocComposites map[cid.Cid][]*coreblock.Block
 }
 
 func (db *DB) newMergeProcessor(
@@ -185,6 +188,7 @@ func (db *DB) newMergeProcessor(
 		missingEncryptionBlocks:   make(map[cidlink.Link]struct{}),
 		availableEncryptionBlocks: make(map[cidlink.Link]*coreblock.Encryption),
 		mergedBlocks:              make(map[cid.Cid]struct{}),
+		linkedDocComposites:       make(map[cid.Cid][]*coreblock.Block),
 	}, nil
 }
 
@@ -469,32 +473,37 @@ func (mp *mergeProcessor) mergeLinkedDocument(
 	block *coreblock.Block,
 	blockLink cidlink.Link,
 ) error {
-	mt, err := getHeadsAsMergeTarget(ctx, keys.HeadstoreDocKey{
-		DocID:   string(block.Delta.GetDocID()),
-		FieldID: core.COMPOSITE_NAMESPACE,
-	})
-	if err != nil {
-		return err
+	// The composites are walked again after missing encryption keys have been fetched. By then the
+	// heads of the document have moved, so the commits to merge are only determined the first time.
+	composites, ok := mp.linkedDocComposites[blockLink.Cid]
+	if !ok {
+		mt, err := getHeadsAsMergeTarget(ctx, keys.HeadstoreDocKey{
+			DocID:   string(block.Delta.GetDocID()),
+			FieldID: core.COMPOSITE_NAMESPACE,
+		})
+		if err != nil {
+			return err
+		}
+
+		docMP := &mergeProcessor{
+			blockLS:          mp.blockLS,
+			col:              mp.col,
+			composites:       list.New(),
+			loadedComposites: make(map[cid.Cid]struct{}),
+		}
+
+		err = docMP.loadComposites(ctx, blockLink.Cid, mt)
+		if err != nil {
+			return err
+		}
+
+		for e := docMP.composites.Front(); e != nil; e = e.Next() {
+			composites = append(composites, e.Value.(*coreblock.Block)) //nolint:forcetypeassert
+		}
+		mp.linkedDocComposites[blockLink.Cid] = composites
 	}
 
-	docMP := &mergeProcessor{
-		blockLS:                   mp.blockLS,
-		encBlockLS:                mp.encBlockLS,
-		col:                       mp.col,
-		docIDs:                    mp.docIDs,
-		composites:                list.New(),
-		loadedComposites:          make(map[cid.Cid]struct{}),
-		missingEncryptionBlocks:   mp.missingEncryptionBlocks,
-		availableEncryptionBlocks: mp.availableEncryptionBlocks,
-	}
-
-	err = docMP.loadComposites(ctx, blockLink.Cid, mt)
-	if err != nil {
-		return err
-	}
-
-	for e := docMP.composites.Front(); e != nil; e = e.Next() {
-		composite := e.Value.(*coreblock.Block) //nolint:forcetypeassert
+	for _, composite := range composites {
 		link, err := composite.GenerateLink()
 		if err != nil {
 			return err
